@@ -275,6 +275,7 @@ func CurrentUser() (*user.User, error) {
 
 // File is what verifsim.Open returns in place of *os.File.
 type File struct {
+	sink bool
 	real *os.File
 	st   *State
 	spec *FileSpec
@@ -421,6 +422,9 @@ func (f *File) Read(p []byte) (int, error) {
 	if f.real != nil {
 		return f.real.Read(p)
 	}
+	if f.sink {
+		return 0, &fs.PathError{Op: "read", Path: f.name, Err: syscall.EBADF}
+	}
 	st := f.st
 	st.Stats.Reads++
 	if f.done {
@@ -496,6 +500,9 @@ func (f *File) Close() error {
 	if f.real != nil {
 		return f.real.Close()
 	}
+	if f.sink {
+		return nil
+	}
 	if f.done {
 		return &fs.PathError{Op: "close", Path: f.name, Err: fs.ErrClosed}
 	}
@@ -512,6 +519,9 @@ func (f *File) Name() string { return f.name }
 func (f *File) Stat() (os.FileInfo, error) {
 	if f.real != nil {
 		return f.real.Stat()
+	}
+	if f.sink {
+		return fileInfo{name: "stdout"}, nil
 	}
 	return fileInfo{name: path.Base(f.name), size: int64(len(f.spec.Data)), dir: f.spec.Kind == "dir"}, nil
 }
@@ -546,22 +556,36 @@ func (f *File) Fd() uintptr {
 
 // ---------------------------------------------------------------- sink
 
-type sinkWriter struct{}
+var stdoutFile = &File{sink: true, name: "/dev/stdout"}
 
-// Stdout stands in for os.Stdout.
-func Stdout() io.Writer {
-	if cur == nil {
-		return os.Stdout
+// Stdout stands in for os.Stdout: a File in sink mode, so that code which
+// declares the value as *os.File (rewritten to *verifsim.File) keeps compiling.
+func Stdout() *File { return stdoutFile }
+
+// Write writes to the simulated standard output (sink mode), or to the real file.
+func (f *File) Write(p []byte) (int, error) {
+	switch {
+	case f.sink:
+		st := cur
+		if st == nil {
+			return os.Stdout.Write(p)
+		}
+		return st.SinkWrite(p)
+	case f.real != nil:
+		return f.real.Write(p)
 	}
-	return sinkWriter{}
+	return 0, &fs.PathError{Op: "write", Path: f.name, Err: syscall.EBADF}
 }
 
-func (sinkWriter) Write(p []byte) (int, error) {
-	st := cur
-	if st == nil {
-		return os.Stdout.Write(p)
+// WriteString is Write for strings.
+func (f *File) WriteString(s string) (int, error) { return f.Write([]byte(s)) }
+
+// Sync has nothing to do for a simulated file.
+func (f *File) Sync() error {
+	if f.real != nil {
+		return f.real.Sync()
 	}
-	return st.SinkWrite(p)
+	return nil
 }
 
 // SinkWrite is the simulated standard output.
@@ -636,4 +660,27 @@ func Yield(site string) {
 	if h := yieldHook; h != nil {
 		h(site)
 	}
+}
+
+var selectHook func(site string, n int) []int
+
+// SetSelectHook installs the callback that orders the communication cases of the
+// instrumented select statements (rule R8). nil removes it.
+func SetSelectHook(f func(site string, n int) []int) { selectHook = f }
+
+// SelectOrder returns the order in which the n cases of the select at site are
+// polled before the select itself runs; nil (no scheduler) means "do not poll".
+func SelectOrder(site string, n int) []int {
+	if h := selectHook; h != nil {
+		return h(site, n)
+	}
+	return nil
+}
+
+// Pick returns ord[i], or -1 when there is no such stage.
+func Pick(ord []int, i int) int {
+	if i < 0 || i >= len(ord) {
+		return -1
+	}
+	return ord[i]
 }
